@@ -56,7 +56,16 @@ fn param(s: &mut S, me: &str) -> String {
         11 => "".into(),
         12 => long(1900, 'x'),
         13 => format!("#{}", long(1200, 'c')),
-        14 => "\u{e9}\u{e9}\u{65e5}\u{672c}\u{1f600}".into(),
+        14 => {
+            if s.chance(50) {
+                "\u{e9}\u{e9}\u{65e5}\u{672c}\u{1f600}".into()
+            } else {
+                // long multi-byte text: byte offsets 100, 255, 256, 300, 500, 512, 1000 fall
+                // inside characters for at least one of the three widths
+                let unit = ["\u{e9}", "\u{65e5}", "a\u{1f600}"][s.pick(3)];
+                unit.repeat(640 / unit.len())
+            }
+        }
         15 => "*".into(),
         16 => "*?*?*?*".into(),
         17 => long(60, '?'),
